@@ -115,6 +115,10 @@ def subject_octets(sigtype, subject):
             raise WireError('text signature needs a document')
         return canonical_text(subject[1])
     if sigtype in (T_STANDALONE, T_TIMESTAMP):
+        # RFC 4880 5.2.1: a signature of only its own subpacket contents, computed as over a zero-length document;
+        # it is not a signature over whatever else it is presented with
+        if kind != 'none' and not (kind == 'doc' and len(subject[1]) == 0):
+            raise WireError('standalone / timestamp signature covers no subject')
         return b''
     if sigtype in T_CERTS or sigtype in (T_CERT_REV, T_ATTEST):
         if kind != 'cert':
